@@ -218,9 +218,14 @@ def _open_socket(addrinfo_list, sockopt, timeout):
                         errno.ECONNREFUSED,
                         errno.WSAECONNREFUSED,
                         errno.ENETUNREACH,
+                        errno.EHOSTUNREACH,
                     )
                 except AttributeError:
-                    eConnRefused = (errno.ECONNREFUSED, errno.ENETUNREACH)
+                    eConnRefused = (
+                        errno.ECONNREFUSED,
+                        errno.ENETUNREACH,
+                        errno.EHOSTUNREACH,
+                    )
                 if error.errno not in eConnRefused:
                     raise error
                 err = error
